@@ -307,6 +307,8 @@ FIXED = [
     "fixed: property=C08 1f35f09 read_union with return_named_type / return_record_name and a reader schema raised TypeError when the "
     "union's named branch is inline on one side and by name on the other (writer [null, \"Foo\"] with Foo defined earlier, reader "
     "[null, {Foo inline}], or the reverse); also C09 (named-type reporting)",
+    "fixed: property=C11 7f54c1b a boolean default was accepted for float / double fields (float(True) == 1.0): "
+    "parse_schema({'type': 'record', 'name': 'R', 'fields': [{'name': 'd', 'type': 'double', 'default': True}]}) did not raise",
     "fixed: property=C18 6c01e0c read_decimal set the precision on a module-level decimal Context and then used it "
     "(schedule: A sets prec=9, B reads a precision-2 decimal, A resumes and returns 1.2E+6 for 1234567.89)",
 ]
